@@ -100,6 +100,29 @@ TABLE.update({
 
 SUITE = "go build ./data/... ./util/... ./sim/... ./models/... ./conv/... ./libopenwater/ && go test -vet=off -count=1 ./data/... ./io/json/... ./util/..."
 
+TABLE.update({
+ "C01-I": ("data", "go test -vet=off -count=1 -run TestC01I ./data/"),
+ "C01-J": ("data", "go test -vet=off -count=1 -run TestC01J ./data/"),
+ "C02-I": ("data", "go test -vet=off -count=1 -run TestC02I ./data/"),
+ "C02-J": ("data/cdata", "go test -vet=off -count=1 -run TestC02J ./data/cdata/"),
+ "C03-I": ("data/cdata", "go test -vet=off -count=1 -run TestDemo ./data/cdata/"),
+ "C03-J": ("libopenwater", "go test -vet=off -count=1 -run TestDemo ./libopenwater/"),
+ "C04-I": ("models", "go test -vet=off -count=1 -run TestC04I ./models/"),
+ "C04-J": ("models", "go test -vet=off -count=1 -run TestC04J ./models/"),
+ "C05-I": ("models/functions", "go test -vet=off -count=1 -run TestDemoC05I ./models/functions/"),
+ "C05-J": ("cmd/ow-sim", "go1.26.8 test -modfile=%(stub)s -vet=off -count=1 -run TestDemoC05J ./cmd/ow-sim/"),
+ "C06-I": ("cmd/ow-sim", "go1.26.8 test -modfile=%(stub)s -vet=off -count=1 -run TestHotStart ./cmd/ow-sim/"),
+ "C06-J": ("models/rr", "go test -vet=off -count=1 -run TestGR4JHotStartStateArrayKinds ./models/rr/"),
+ "C07-I": ("cmd/ow-sim", "go1.26.8 test -modfile=%(stub)s -vet=off -count=1 -run TestSplitFileKeepsFinalInputsWithoutOutputs ./cmd/ow-sim/"),
+ "C07-J": ("cmd/ow-sim", "go1.26.8 test -modfile=%(stub)s -vet=off -count=1 -run TestHeadwaterNode ./cmd/ow-sim/"),
+ "C08-I": ("io", "go1.26.8 test -modfile=%(stub)s -vet=off -count=1 -run TestC08IDemo ./io/"),
+ "C08-J": ("io", "go1.26.8 test -modfile=%(stub)s -vet=off -count=1 -run TestC08JDemo ./io/"),
+ "C14-I": ("models/routing", "go test -vet=off -count=1 -run TestLagShortWindowManyCells ./models/routing/"),
+ "C14-J": ("models/storage", "go test -vet=off -count=1 -run TestUnconfiguredStorageRepeatable ./models/storage/"),
+ "C17-I": ("sim", "go test -vet=off -count=1 -run TestC17I ./sim/"),
+ "C17-J": ("io/json", "rm -f io/json/c17j_runner_demo_test.go && go test -vet=off -count=1 -run TestC17J ./io/json/"),
+})
+
 def sh(cmd, cwd=WT):
     r = subprocess.run(cmd, shell=True, cwd=cwd, env=ENV, capture_output=True, text=True)
     return r.returncode, (r.stdout + r.stderr)[-1500:]
